@@ -22,11 +22,33 @@ def main():
     torch.manual_seed(seed)
     sys.path.insert(0, os.path.dirname(os.path.dirname(os.path.abspath(__file__))))
     mod = importlib.import_module('harness.%s' % a.pid.lower())
-    if a.replay:
-        sys.exit(mod.replay(a.replay))
-    from symx.harness import Harness, EXIT_HARNESS_ERROR
+    from symx.harness import Harness, EXIT_HARNESS_ERROR, ReplayDone
     H = Harness(a.pid, a.tier, seed)
     H.only = a.only
+    if a.replay:
+        # re-examine one recorded finding on the real code: the harness is re-run (no solver queries) until the recorded obligation is
+        # reached, then its replay closure is executed on the recorded model.  exit 1 + VIOLATION line if it reproduces, 0 if not.
+        import json
+        rec = json.load(open(a.replay))
+        data = rec.get('data') or {}
+        H.replay_target = {'key': rec.get('key'), 'obligation': data.get('obligation'), 'model': data.get('model')}
+        try:
+            mod.run(H)
+        except ReplayDone:
+            pass
+        except BaseException:
+            traceback.print_exc()
+        H.kill_pool()
+        if H.replay_outcome is None:
+            print('REPLAY: the recorded obligation %r was not reached on the current tree (tier %s)' % (data.get('obligation') or rec.get('key'), a.tier))
+            sys.stdout.flush()
+            os._exit(0)
+        ok, detail = H.replay_outcome
+        print('REPLAY: %s -> %s' % ('reproduces' if ok else 'does not reproduce', detail[:600]))
+        if ok:
+            print('VIOLATION property=%s replay=%s' % (a.pid, a.replay))
+        sys.stdout.flush()
+        os._exit(1 if ok else 0)
     try:
         rc = mod.run(H)
     except SystemExit:
